@@ -2007,3 +2007,53 @@ def r8_9(rep):
               and "DerivableTraits::CLONE" not in b.canon(n_["r"], 6)]
     first_ret = min(r["_i"] for r in rets)
     rep.check(all(o["_i"] > first_ret for o in others), "other-bits-after-packed-return", "every other derive bit is added after the packed early return", b.loc(b.root))
+
+
+@RULES.rule("R8.10", "a packed type without Copy gets no hand-written Debug either (the impl borrows every field)", floor=1)
+def r8_10(rep):
+    """The hand-written `impl Debug` formats `self.field` by reference, exactly what `#[derive(Debug)]` would do; for a packed type
+    that is only allowed when the type is Copy (R8.9 withholds every derive otherwise).  `derives_of_item` returning the empty
+    set makes `!derivable_traits.contains(DEBUG)` true, so without its own packed test the manual impl is requested for
+    `struct __attribute__((packed)) P { char c; int x; }` with `--no-copy P --impl-debug` (E0793)."""
+    import itertools
+    prog = rep.prog
+    b = rep.need(prog.impl_fn("codegen::CodeGenerator", "ir::comp::CompInfo", "codegen"), "<CompInfo as CodeGenerator>::codegen")
+    # the local that requests the manual Debug impl: the one that guards the gen_debug_impl call
+    gens = [c for c in b.calls(lambda n: n["k"] == "Call" and (n.get("callee") or "").endswith("impl_debug::gen_debug_impl"))]
+    rep.need(gens, "call of impl_debug::gen_debug_impl in CompInfo::codegen")
+    flag = None
+    for pol, kind, g in b.guards(gens[0]):
+        if kind == "cond" and pol and strip(g).get("k") == "Local":
+            flag = strip(g)["id"]
+    rep.need(flag is not None, "the flag guarding gen_debug_impl")
+    asg = [n for n in b.nodes if n["k"] == "Assign" and strip(n["l"]).get("k") == "Local" and strip(n["l"])["id"] == flag]
+    rep.need(asg, "assignments of the manual-Debug flag")
+    # the packed flag: initialised from CompInfo::is_packed
+    pk = [n["pat"]["id"] for n in b.nodes if n["k"] == "Let" and n["pat"].get("k") == "Bind" and n.get("init") is not None and
+          (strip(n["init"]).get("callee") or strip(n["init"]).get("resolved") or "").endswith("CompInfo::is_packed")]
+    rep.need(pk, "`let packed = self.is_packed(..)`")
+    f = None
+    for a in asg:
+        x = ("and", _reach(b, a), _formula(b, a["r"]))
+        f = x if f is None else ("or", f, x)
+    atoms = sorted(_atoms(f, set()))
+    pk_atoms = [a for a in atoms if a in ("local:%s" % nm for nm in {d[2]["name"] for lid, d in b.local_def.items() if lid in pk})
+                or "CompInfo::is_packed(" in a]
+    copy_atoms = [a for a in atoms if "DerivableTraits::COPY" in a and "contains" in a]
+    bad = None
+    n = 0
+    if pk_atoms and copy_atoms:
+        for vals in itertools.product([False, True], repeat=len(atoms)):
+            env = dict(zip(atoms, vals))
+            if not all(env[a] for a in pk_atoms) or any(env[a] for a in copy_atoms):
+                continue
+            n += 1
+            if _ev(f, env):
+                bad = env
+                break
+    ok = bool(pk_atoms) and bool(copy_atoms) and bad is None
+    rep.check(ok, "manual-debug-not-for-packed-noncopy",
+              "over %d combinations: packed and COPY not derived implies no hand-written Debug" % n if ok else
+              "the request for a hand-written Debug impl %s: a packed type that is not Copy gets `impl Debug` that borrows its fields" %
+              ("does not look at `packed` / the COPY bit" if not (pk_atoms and copy_atoms) else "can be true for packed, non-Copy types"),
+              b.loc(asg[0]))
